@@ -227,8 +227,9 @@ Definition known (c : case) : Z := 0.
 (* well-formed case: no repeated node, no self reference, and neither a node nor the target is
    Aggregates or one of its subtypes (deleting those would change which references aggregate
    half-way through the deletion) *)
-Definition nodupb (l : list Z) : bool :=
-  (fix go (seen l : list Z) := match l with [] => true | x :: l' => negb (memZ x seen) && go (x :: seen) l' end) [] l.
+Fixpoint nodupb_from (seen l : list Z) : bool :=
+  match l with [] => true | x :: l' => negb (memZ x seen) && nodupb_from (seen ++ [x]) l' end.
+Definition nodupb (l : list Z) : bool := nodupb_from [] l.
 Definition validb (c : case) : bool :=
   nodupb (c_nodes c)
   && forallb (fun x => negb (src x =? tgt x)) (c_refs c)
